@@ -1010,6 +1010,7 @@ func genScenario(r *hx.Rng, i int, allowOpaque bool) *Scenario {
 				sc.Working = uint64(r.Intn(4))
 			}
 		}
+		_ = 0
 		// miner refund transactions: partial / full / too much / unparsable amounts, foreign senders,
 		// unknown ids, several refunds falling on the same height (same and different accounts)
 		funded := map[string]bool{}
@@ -1048,7 +1049,9 @@ func genScenario(r *hx.Rng, i int, allowOpaque bool) *Scenario {
 				id = "0xdead00"
 			}
 			d, _ := json.Marshal(map[string]string{"Amount": amt, "MinerId": id})
-			x := TxS{Source: "0x" + src, Type: 4, Hash: randHash(r), Data: string(d)}
+			// fully random hash: a miner receipt is recognised by its hash (its message is not compared),
+			// so it must not collide with the shared-prefix hashes of the other transactions
+			x := TxS{Source: "0x" + src, Type: 4, Hash: hex.EncodeToString(r.Bytes(32)), Data: string(d)}
 			if r.Chance(1, 10) {
 				x.Data = "{bad"
 			}
@@ -1057,6 +1060,14 @@ func genScenario(r *hx.Rng, i int, allowOpaque bool) *Scenario {
 			}
 			sc.Txs = append(sc.Txs, x)
 		}
+	}
+	// receipts and observed EVM steps are matched to transactions by hash: keep hashes unique
+	seenHash := map[string]bool{}
+	for i := range sc.Txs {
+		for seenHash[sc.Txs[i].Hash] {
+			sc.Txs[i].Hash = hex.EncodeToString(r.Bytes(32))
+		}
+		seenHash[sc.Txs[i].Hash] = true
 	}
 	return sc
 }
